@@ -27,7 +27,7 @@ class Infra(Exception):
 
 
 class Ctx:
-    def __init__(self, pid, tier, seed, level):
+    def __init__(self, pid, tier, seed, level, keep_replays=False):
         self.pid = pid
         self.tier = tier
         self.seed = seed
@@ -52,6 +52,8 @@ class Ctx:
         self.assumptions = []
         self.notes = []
         self._known = load_known(pid)
+        if not keep_replays:
+            shutil.rmtree(os.path.join(VERIF, 'replays', pid), ignore_errors=True)
         self._tlcn = 0
         self.vh = None
 
